@@ -691,6 +691,8 @@ class Twist3(SMTwist):
 
         :seealso: :func:`Twist3.Ad`
         """
+        if len(self) > 1:
+            return [x.ad() for x in self]
         return np.block([
                     [base.skew(self.w), base.skew(self.v)], 
                     [np.zeros((3, 3)), base.skew(self.w)]
@@ -795,6 +797,8 @@ class Twist3(SMTwist):
             >>> S.pitch()
 
         """
+        if len(self) > 1:
+            return [x.pitch() for x in self]
         return np.dot(self.w, self.v)
 
     def line(self):
@@ -836,6 +840,8 @@ class Twist3(SMTwist):
             >>> S = Twist3(T)
             >>> S.pole()
         """
+        if len(self) > 1:
+            return [x.pole() for x in self]
         return np.cross(self.w, self.v) / self.theta()
 
     def theta(self):
@@ -859,6 +865,8 @@ class Twist3(SMTwist):
             >>> S = Twist3(T)
             >>> S.theta()
         """
+        if len(self) > 1:
+            return [x.theta() for x in self]
         return base.norm(self.w)
 
     def exp(self, theta=None, units='rad'):
